@@ -172,6 +172,12 @@ pub fn serve(sc: &Scenario, ids: &[String], r: &Req) -> SvcRes {
         }
     }
     let num: usize = f.trim_start_matches(|c: char| c.is_alphabetic()).parse().unwrap_or(0);
+    if f.starts_with("oddfail") {
+        return (1 + (num % 7) as i32, crate::script3::odd_value(num));
+    }
+    if f.starts_with("odd") {
+        return (0, crate::script3::odd_value(num));
+    }
     let v = if f.starts_with("fail") {
         return (1 + (num % 7) as i32, json!(format!("boom {f} {}", short_digest(&args))).to_string());
     } else if f.starts_with("rdec") {
